@@ -181,6 +181,19 @@ def solve_obligation(o, timeout_s=10, dump_dir=None, inputs=None,
             elif r2 == 'sat':
                 o.status, o.backend = 'failed', 'cvc5-1.0.3'
         if o.status == 'unknown':
+            # refutation without a model: if the hypotheses *entail the negation*
+            # of the goal, the obligation fails in every state that reaches this
+            # point (the hypotheses themselves were not found inconsistent: the
+            # query with the negated goal did not come back unsat)
+            s3 = _solver(int(min(timeout_s, 5) * 1000))
+            for a in C.str_axioms(): s3.add(a)
+            for h in o.hyps: s3.add(h)
+            s3.add(o.goal)
+            if s3.check() == z3.unsat:
+                o.status = 'failed'
+                o.reason = 'the hypotheses entail the negation of the goal (refuted on every input reaching this point)'
+                o.backend = 'z3-%s (negation proved)' % z3.get_version_string()
+        if o.status == 'unknown':
             # candidate counter-model: drop the quantified hypotheses.  A model
             # of the weaker query is NOT a proof of failure; it is only used
             # as input for the native replay.
